@@ -482,7 +482,7 @@ def bounded(tier, seed):
                 break
     # files WITHOUT a time-flag variable (built in memory before updatetflag, or stored without TFLAG): the times are decoded from
     # SDATE / STIME / TSTEP, and a time window must still move the start date/time to the first selected step
-    for fname, kw in files[:2]:
+    for fname, kw in files + [('15 min from 00:45', dict(nt=6, nz=2, ny=3, nx=4, sdate=2021059, stime=4500, tstep=1500))]:
         f = IO.make_ioapi(P, seed=seed, **kw)
         times0 = list(f.getTimes())
         del f.variables['TFLAG']
